@@ -52,7 +52,7 @@ def hook(w, e, comp, env):
         return d
     if isinstance(e, C.ReferenceValue):
         f = e.ufl_operands[0]
-        return w.symbol(f"rv{f.count()}", comp)
+        return w.symbol(f"rv{f.count()}" if hasattr(f, "count") else f"rvarg{f.number()}", comp)
     return NotImplemented
 
 
@@ -304,6 +304,39 @@ def build(run):
     symmetric("triangle", 2, "identity")
     symmetric("tetrahedron", 3, "identity")
     symmetric("triangle", 2, "contra")
+
+    # ---- the mixed space that derivative() builds for a TUPLE of coefficients (an internal mixed element of ufl.formoperators): the argument it
+    # creates is pushed forward block-wise by the declared maps of the coefficients' elements, whatever mix of identity and Piola kinds they are
+    def derivative_argument(kinds, cellname, g):
+        tag = f"derivative-created-argument[{'+'.join(kinds)}]/{cellname}@{g}d"
+
+        def thunk():
+            msh = mesh(cellname, g)
+            cell = msh.ufl_cell()
+            t = cell.topological_dimension
+            subs, rshapes = zip(*[elem(kd, cell, t) for kd in kinds])
+            coeffs = tuple(ufl.Coefficient(ufl.FunctionSpace(msh, el_)) for el_ in subs)
+            F = sum((ufl.inner(c_, c_) for c_ in coeffs[1:]), ufl.inner(coeffs[0], coeffs[0])) * ufl.dx(msh)
+            dF = ufl.derivative(F, coeffs)
+            args = [a_ for a_ in dF.arguments()]
+            if len(args) != 1:
+                return undecided(f"{tag}: derivative() created {len(args)} arguments")
+            arg = args[0]
+            total, spec = mixed_spec(kinds, rshapes, g, t, f"arg{arg.number()}")
+            V = arg.ufl_function_space()
+            if tuple(V.value_shape) != (total,):
+                return violated(f"{tag}: the created argument's space has value_shape {V.value_shape}, the blocks need ({total},)", reproduced=True,
+                                replay={"element": repr(V.ufl_element())[:500]}, backend="structural")
+            try:
+                r = apply_real(arg)
+            except Exception as ex:  # noqa: BLE001
+                return violated(f"{tag}: pullback raised {type(ex).__name__}: {ex}", reproduced=True, replay={"element": repr(V.ufl_element())[:500]})
+            return check_same(mkworld, r, spec, (total,), timeout_ms=tmo, what=tag)
+        run.add(tag, thunk, kind="values")
+    for kinds in [("identity", "identity"), ("identity", "contra"), ("cov", "identity"), ("contra", "cov"), ("contra", "identity", "cov"), ("l2", "identity"), ("identity", "dcontra")]:
+        derivative_argument(kinds, "triangle", 2)
+    derivative_argument(("identity", "contra"), "triangle", 3)
+    derivative_argument(("cov", "identity", "contra"), "tetrahedron", 3)
 
     # ---- frame: physical_value_shape / apply are functions of (element, domain) only.  ONE element object used on meshes of different
     # geometric dimension, one after the other (and back): each use must meet the contract of that mesh, whatever was computed before
